@@ -15,6 +15,7 @@ var Families = map[string][]string{
 	"C06": {"hosts"},
 	"C11": {"dhcp"},
 	"C12": {"dhcp"},
+	"C18": {"lease"},
 }
 
 // Generate builds the scenario for (property, family, seed).
@@ -24,6 +25,8 @@ func Generate(prop, family string, seed uint64, tier string) Scenario {
 		return genHosts(prop, seed, tier)
 	case "dhcp":
 		return genDHCP(prop, seed, tier)
+	case "lease":
+		return genDHCP("C18", seed, tier)
 	}
 	panic("unknown family " + family)
 }
@@ -53,6 +56,8 @@ func Driver(sc Scenario, trace bool) func() {
 			runHosts(e)
 		case "dhcp":
 			runDHCP(e)
+		case "lease":
+			runLease(e)
 		default:
 			e.violate("infra.setup", "family", fmt.Sprintf("unknown family %q", sc.Family))
 		}
